@@ -210,8 +210,9 @@ def facFromIter (src : Src) : Src × Option Gen :=
       | (s3, .err _) =>
         (s3, if base < dblMin then none else some (.factor base base 0 (wrap32 (iter + 1)) 0 0))
       | (s3, .ok fact) =>
+        -- a supplied factor must be positive as in the text form (fix in /repo)
         match s3.consumeD with
-        | (s4, .err _) => (s4, some (.factor base fact 0 (wrap32 (iter + 1)) 0 0))
-        | (s4, .ok init) => (s4, some (.factor base fact init (wrap32 (iter + 1)) 0 init))
+        | (s4, .err _) => (s4, if fact < dblMin then none else some (.factor base fact 0 (wrap32 (iter + 1)) 0 0))
+        | (s4, .ok init) => (s4, if fact < dblMin then none else some (.factor base fact init (wrap32 (iter + 1)) 0 init))
 
 end Mpt.Iter
